@@ -368,6 +368,16 @@ static void sweep_dec(int argc, char **argv)
     if (e.desc <= 0) return;
     e.data = malloc(e.len + 1); fill_data(e.data, e.len, e.seed);
     if (do_encode(&e, 0) != 0) { do_destroy(e.desc); free(e.data); return; }
+    /* mode bit 64: the stripe was written under one meaning of the legacy-CRC switch and is READ under the other
+     * (readers accept both checksum flavours whatever the switch says); decodes only - a fragment rebuilt now would
+     * legitimately carry the other flavour */
+    char *tg_keep = NULL; int tg = 0;
+    if (mode & 64) {
+        const char *o = getenv("LIBERASURECODE_WRITE_LEGACY_CRC");
+        tg = 1; tg_keep = o ? strdup(o) : NULL;
+        if (o && o[0] && strcmp(o, "0")) unsetenv("LIBERASURECODE_WRITE_LEGACY_CRC"); else setenv("LIBERASURECODE_WRITE_LEGACY_CRC", "1", 1);
+        mode &= ~(8 | 16 | 32);
+    }
     for (esz = emin; esz <= emax && esz <= n; esz++) {
         double total = choose(n, esz); uint64_t cnt = 0, E;
         int all = total <= (double)cap;
@@ -405,6 +415,7 @@ static void sweep_dec(int argc, char **argv)
             if (all) { if (esz == 0) break; E = next_comb(E); }
         }
     }
+    if (tg) { if (tg_keep) { setenv("LIBERASURECODE_WRITE_LEGACY_CRC", tg_keep, 1); free(tg_keep); } else unsetenv("LIBERASURECODE_WRITE_LEGACY_CRC"); }
     enc_release(&e);
     do_destroy(e.desc);
     free(e.data);
@@ -511,6 +522,45 @@ static void oob_dest(char **argv)
     for (v = 0; v < 2; v++) {
         arrange(&e, v == 0 ? 0 : 1ULL << (n - 1), 0, e.seed, &a);   /* all supplied / last one missing */
         for (t = 0; t < 7; t++) if (!skip_case()) do_recon(&e, &a, dests[t], e.flen);
+    }
+    enc_release(&e);
+    do_destroy(e.desc);
+    free(e.data);
+}
+
+/* short_len be k m hd w ct len seed : decode and reconstruct told a fragment length SHORTER than a header (0..79), with
+ * buffers that really are that short (exact-size heap blocks under ASan, or ending at the guard page): refused with a
+ * negative code, nothing read past the length given (C13, C15) */
+static void short_len(char **argv)
+{
+    struct enc e; int n, li, i; static const int Ls[9] = { 0, 1, 40, 58, 59, 60, 71, 79, 4 };
+    memset(&e, 0, sizeof e);
+    e.be = atoi(argv[1]); e.k = atoi(argv[2]); e.m = atoi(argv[3]); e.hd = atoi(argv[4]);
+    int w = atoi(argv[5]); e.ct = atoi(argv[6]); e.len = strtoull(argv[7], 0, 10); e.seed = strtoull(argv[8], 0, 10);
+    n = e.k + e.m;
+    e.desc = do_create(e.be, e.k, e.m, e.hd, w, e.ct, 0);
+    if (e.desc <= 0) return;
+    e.data = malloc(e.len + 1); fill_data(e.data, e.len, e.seed);
+    if (do_encode(&e, 0) != 0) { do_destroy(e.desc); free(e.data); return; }
+    for (li = 0; li < 9; li++) {
+        int L = Ls[li], force;
+        for (force = 0; force < 2; force++) {
+            struct placed pl[MAXN]; char *ptrs[MAXN]; int cnt = 0, drc, rrc; char *out = NULL; uint64_t olen = 0; char *o2;
+            long l0 = verif_live;
+            if (skip_case()) continue;
+            for (i = 1; i < n; i++) { pl[cnt] = place_copy(e.frag[i], (size_t)L, 0); ptrs[cnt] = pl[cnt].ptr; cnt++; }
+            ev_begin("ShortLen"); ev_cfg(e.be, e.k, e.m, e.hd, e.ct); ev_int("L", L); ev_int("force", force); ev_int("l0", l0);
+            ev_call();
+            drc = liberasurecode_decode(e.desc, ptrs, cnt, (uint64_t)L, force, &out, &olen);
+            if (drc == 0) liberasurecode_decode_cleanup(e.desc, out);
+            o2 = malloc(e.flen + 1);
+            shm->incall = 1;
+            rrc = liberasurecode_reconstruct_fragment(e.desc, ptrs, cnt, (uint64_t)L, 0, o2);
+            free(o2);
+            ev_int("drc", drc); ev_int("rrc", rrc); ev_int("l1", verif_live);
+            ev_end();
+            for (i = 0; i < cnt; i++) placed_free(&pl[i]);
+        }
     }
     enc_release(&e);
     do_destroy(e.desc);
@@ -624,6 +674,7 @@ static int run_script(const char *path)
         else if (!strcmp(argv[0], "sweep_need")) sweep_need(argc, argv);
         else if (!strcmp(argv[0], "sweep_need_len")) { g_need_onlylen = 1; sweep_need(argc, argv); g_need_onlylen = 0; }
         else if (!strcmp(argv[0], "oob_dest")) oob_dest(argv);
+        else if (!strcmp(argv[0], "short_len")) short_len(argv);
         else if (!strcmp(argv[0], "one_dec")) one_case(1, argv);
         else if (!strcmp(argv[0], "one_rec")) one_case(0, argv);
         else if (!strcmp(argv[0], "one_need")) one_need(argv);
